@@ -60,6 +60,21 @@ def J(test, checks=None, shards=1, race=False, env=None, procs=None, timeout=900
 
 
 PROPS = {
+    "C19": dict(
+        level="exploration",
+        rule="bounded-exhaustive: for each of the 7 workload kinds every source set of <=2 (thorough: <=3) workloads over 2 namespaces x selector variants {absent, empty, one label, two labels, In, NotIn, Exists} x template labels {absent, one label} against every pod over 2 namespaces x 9 label maps; every set of <=2 ingresses (default backend absent/empty/named x 0-3 paths) against 6 services; node/involved/selector-match filters over their argument universes against pods, services, events and foreign kinds; plus rapid-generated source sets (<=3 sources, 3 namespaces, 16 label maps). Oracle = reference ownership predicates. Non-trivial = sources in >1 namespace, or a source lacking a selector / using set-based requirements, or an ingress with >1 backend; distinct = distinct filter rendering.",
+        assumptions=["workload sources have distinct namespace/name and non-empty namespaces", "PodsFilter is only asked about pods and ServicesFilter about services (the statement speaks of pods/services)"],
+        quick=[J("TestC19_Enum"), J("TestC19_Random", checks=30000)],
+        thorough=[J("TestC19_Enum", shards=16), J("TestC19_Random", checks=200000, shards=8)],
+    ),
+    "C17": dict(
+        level="exploration",
+        rule="pairs of filter terms (all constructors incl. typed workload filters, depth <= 3): rapid pairs biased to 'same constructor, nearby / permuted / rebuilt arguments', plus all ordered pairs of enumerated depth<=1 terms; for every pair reported equal by FiltersEqual or Equals the real Accept of both sides is compared on the whole 250+ object universe. Non-trivial = the pair is reported equal (the only cases in which soundness can fail); distinct = distinct rendering of the ordered pair.",
+        assumptions=["soundness is judged on the finite object universe (3 ns x 3 names x 16 label maps of pods, pods with node names, services with selectors, events, two foreign kinds)",
+                     "workload sources have distinct namespace/name, as in a real cluster"],
+        quick=[J("TestC17_Random", checks=30000), J("TestC17_Enum")],
+        thorough=[J("TestC17_Random", checks=200000, shards=16), J("TestC17_Enum", shards=16, timeout=1800)],
+    ),
     "C18": dict(
         level="exploration",
         rule="rapid-generated filter terms (depth <= 3) over the filter package's constructors evaluated on generated slices of the 3ns x 3names x 16 label-map universe, plus enumerated terms against the complete universe; compared with an independent evaluator. Non-trivial = term of depth >= 2 containing a partial NSName entry or a set-based selector requirement; distinct = distinct term rendering.",
